@@ -264,22 +264,51 @@ def r03_3(ctx: Ctx):
     # per-level sums in summary()
     s = ctx.prog.own_method("DemeTree", "summary")
     found = 0
-    for n in body_walk(s.node):
-        if isinstance(n, ast.Call) and norm(n.func) == "sum" and n.args and isinstance(n.args[0], (ast.GeneratorExp, ast.ListComp)) and norm(n.args[0].elt).endswith(".n_evaluations"):
-            found += 1
-            comp = n.args[0]
-            ok = len(comp.generators) == 1 and not comp.generators[0].ifs
-            it = comp.generators[0].iter
-            src_ok = False
-            if isinstance(it, ast.Name):
-                # bound by `for level, level_demes in enumerate(self.levels)`
-                for fl in body_walk(s.node):
-                    if isinstance(fl, ast.For) and any(isinstance(x, ast.Name) and x.id == it.id for x in ast.walk(fl.target)):
-                        src = fl.iter
-                        if isinstance(src, ast.Call) and norm(src.func) == "enumerate" and src.args:
-                            src = src.args[0]
-                        src_ok = norm(src) in (f"{s.self_name()}.levels", f"{s.self_name()}._levels")
-            obs.append(ctx.ob("R03.3", s, n, status=OK if (ok and src_ok) else VIOLATION, detail="level total sums every deme of the level" if (ok and src_ok) else f"per-level evaluation total `{norm(n)}` does not range over all demes of the level"))
+    # summary() itself and the private helpers of the class it calls with a level's deme list
+    helpers = []
+    for c in body_walk(s.node):
+        if isinstance(c, ast.Call) and isinstance(c.func, ast.Attribute) and isinstance(c.func.value, ast.Name) and c.func.value.id == s.self_name() and c.func.attr.startswith("_") and s.cls is not None:
+            h = ctx.prog.lookup_method(s.cls, c.func.attr)
+            if h is not None:
+                helpers.append((h, c))
+
+    def level_list_in_summary(name: str):
+        """is `name` (in summary) bound by `for .. in enumerate(self.levels)` / `for x in self.levels`?  True / False / None"""
+        for fl in body_walk(s.node):
+            if isinstance(fl, (ast.For, ast.comprehension)) and any(isinstance(x, ast.Name) and x.id == name for x in ast.walk(fl.target)):
+                src = fl.iter
+                if isinstance(src, ast.Call) and norm(src.func) == "enumerate" and src.args:
+                    src = src.args[0]
+                if norm(src) in (f"{s.self_name()}.levels", f"{s.self_name()}._levels"):
+                    return True
+                if norm(src).startswith((f"{s.self_name()}.levels[", f"{s.self_name()}._levels[", f"{s.self_name()}.leaves", f"{s.self_name()}.active")):
+                    return False
+        return None
+
+    for g, callsite in [(s, None)] + helpers:
+        for n in body_walk(g.node):
+            if isinstance(n, ast.Call) and norm(n.func) == "sum" and n.args and isinstance(n.args[0], (ast.GeneratorExp, ast.ListComp)) and norm(n.args[0].elt).endswith(".n_evaluations"):
+                found += 1
+                comp = n.args[0]
+                ok = len(comp.generators) == 1 and not comp.generators[0].ifs
+                it = comp.generators[0].iter
+                src_ok = None
+                if isinstance(it, ast.Name):
+                    nm = it.id
+                    if callsite is not None and nm in g.params():
+                        idx = g.params().index(nm) - 1
+                        a = callsite.args[idx] if 0 <= idx < len(callsite.args) else next((k.value for k in callsite.keywords if k.arg == nm), None)
+                        nm = a.id if isinstance(a, ast.Name) else None
+                    src_ok = level_list_in_summary(nm) if nm else None
+                elif norm(it).startswith((f"{g.self_name()}.levels[", f"{g.self_name()}._levels[")) and isinstance(it, ast.Subscript) and not isinstance(it.slice, ast.Slice):
+                    src_ok = True
+                if ok and src_ok:
+                    st_l = OK
+                elif not ok or src_ok is False:
+                    st_l = VIOLATION
+                else:
+                    st_l = INCONCLUSIVE
+                obs.append(ctx.ob("R03.3", g, n, status=st_l, detail="level total sums every deme of the level" if st_l == OK else f"per-level evaluation total `{norm(n)}` does not range over all demes of the level" if st_l == VIOLATION else f"cannot tell which demes `{norm(it)}` in the per-level total ranges over"))
     if not found:
         obs.append(ctx.ob("R03.3", s, s.node, status=INCONCLUSIVE, detail="summary() no longer contains a recognisable per-level evaluation sum", construct="level-total"))
     return obs
